@@ -27,10 +27,10 @@ def proofs(tier, workroot):
              decreases='DI_size(data) - (unsigned long)idx'),
         dict(fn='uncrustify_file', id=1, vars=['old_changes', 'first'],
              assigns='old_changes, first, g_pass_seq, CPD(changes), CPD(pass_count), ' + ', '.join('g_ran_' + n for n in in_loop1),
-             inv='g_output_text_calls == 0 && g_pass_seq >= %s && CPD(pass_count) <= 3' % E('g_pass_seq')),
+             inv='g_output_text_calls == 0 && CPD(pass_count) >= 0 && CPD(pass_count) <= 3'),
         dict(fn='uncrustify_file', id=2, vars=['old_changes', 'first'],
              assigns='old_changes, first, g_pass_seq, CPD(changes), g_exit_status, g_exited, ' + ', '.join('g_ran_' + n for n in sorted(set(in_loop2))),
-             inv='g_output_text_calls == 0 && g_pass_seq >= %s' % E('g_pass_seq')),
+             inv='g_output_text_calls == 0'),
     ]
     env = ['exit/exit_contract', 'fopen/fopen_any_contract', 'fclose/fclose_any_contract', 'bout_content_matches/bout_content_matches_contract',
            'uncrustify_end/uncrustify_end_contract', 'ends_with/ends_with_contract']
